@@ -35,7 +35,8 @@ ModesAfterGrow(m, newq) ==
 Upd(s, i, newq) == { [q |-> Set2(s.q, i, newq), mode |-> Set2(s.mode, i, m)] : m \in ModesAfterGrow(s.mode[i], newq) }
 
 Ops == {"append", "prepend", "assign", "resize", "reserve", "rmfront", "rmback", "clear", "free", "swap",
-        "copy", "assignb", "appendb", "prependb", "attach", "ctor", "ctord", "eq"}
+        "copy", "assignb", "appendb", "prependb", "attach", "ctor", "ctord", "eq",
+        "assignself", "appendself", "prependself", "swapself"}           \* the buffer itself as the argument
 
 Step(op, s, i, d, n) ==
   LET q == s.q[i]  o == Other(i) IN
@@ -53,6 +54,10 @@ Step(op, s, i, d, n) ==
     [] op = "assignb"  -> Upd(s, i, s.q[o])                                                     \* i = other
     [] op = "appendb"  -> Upd(s, i, q \o s.q[o])
     [] op = "prependb" -> Upd(s, i, s.q[o] \o q)
+    [] op = "assignself"  -> { s } \cup Upd(s, i, q)        \* b = b: unchanged (it may take ownership of an attached view)
+    [] op = "appendself"  -> Upd(s, i, q \o q)
+    [] op = "prependself" -> Upd(s, i, q \o q)
+    [] op = "swapself"    -> { s }
     [] op = "attach"   -> { [q |-> Set2(s.q, i, [k \in 1..n |-> AttByte(k - 1)]), mode |-> Set2(s.mode, i, "att")] }
     [] op = "ctor"     -> { [q |-> Set2(s.q, i, <<>>), mode |-> Set2(s.mode, i, "own")] }       \* i := Buffer(capacity n)
     [] op = "ctord"    -> { [q |-> Set2(s.q, i, d), mode |-> Set2(s.mode, i, "own")] }          \* i := Buffer(data, size)
